@@ -3,6 +3,7 @@ from .. import cfg, util
 from ..core import RuleResult, need
 from ..facts import callee, op_place, op_local, place_fields
 from ..origins import Origins
+from .. import absint as AI
 
 VERDICT_FNS = ("ucg::do_validate", "ucg::do_compile", "ucg::visit_ucg_files")
 
@@ -107,91 +108,177 @@ def _consumption(F, r, cf, key):
            "verdict for them)" % (short[0][1] if short else "?", "false" if short and short[0][1] == "all" else "hit"))
 
 
+# ---------------------------------------------------------------------------------------------------------------------
+# verdict plumbing by abstract evaluation (absint.Sim): for every call of a function that yields a verdict, the result is forced to
+# its negative value on one visit and the caller's own outcome is evaluated on every path
+SEEDS = {"ucglib::build::FileBuilder::assert_results": "bool", "ucg::build_file": "result"}
+ROOT_VERDICTS = ("ucg::do_validate", "ucg::do_compile", "ucg::visit_ucg_files")
+
+
+def _kind(ty):
+    if ty == "bool":
+        return "bool"
+    if ty.startswith("core::result::Result<bool,"):
+        return "result-bool"
+    if ty.startswith("core::result::Result<"):
+        return "result"
+    if ty in ("()", "!"):
+        return "unit"
+    if ty in ("i32", "u8", "i64", "isize", "usize", "u32"):
+        return "int"
+    return None
+
+
+def _negatives(kind):
+    return {"bool": [("", AI.Fv)], "result-bool": [("", AI.ok_(AI.Fv)), (":Err", AI.err_())], "result": [(":Err", AI.err_())],
+            "int": [("", ("i", 1))]}.get(kind, [])
+
+
+def _positive(kind):
+    return {"bool": AI.T, "result-bool": AI.ok_(AI.T), "result": AI.ok_(AI.U), "int": ("i", 0)}.get(kind, AI.U)
+
+
+def _is_negative(v, kind):
+    if kind == "bool":
+        return v == AI.Fv
+    if kind == "result-bool":
+        return v[0] == "e" and (v[2] == "Err" or (v[2] == "Ok" and AI.field_of(v, "0") == AI.Fv))
+    if kind == "result":
+        return v[0] == "e" and v[2] == "Err"
+    if kind == "int":
+        return v[0] == "i" and v[1] != 0
+    return False
+
+
+def _definitely_negative_verdict(v, kind):
+    """for the positive direction: a value that says FAIL although every verdict was positive (an Err is another kind of failure)"""
+    if kind == "bool":
+        return v == AI.Fv
+    if kind == "result-bool":
+        return v[0] == "e" and v[2] == "Ok" and AI.field_of(v, "0") == AI.Fv
+    if kind == "int":
+        return v[0] == "i" and v[1] != 0
+    return False
+
+
+def verdict_functions(F):
+    """name -> kind for every function (or closure) whose result carries a verdict: the seeds and, transitively, every function of
+    the binary crate that calls one and returns bool / Result<bool, _> / an integer"""
+    verdict = dict(SEEDS)
+    changed = True
+    while changed:
+        changed = False
+        for n, fn in F.fns.items():
+            if fn.derived or n in verdict or not (fn.crate == "ucg" or n.startswith("ucg::")):
+                continue
+            if not any(callee(t) in verdict for b, t in fn.calls()) and not any(c in verdict for c in _closures_made(fn)):
+                continue
+            k = _kind(fn.local_ty(0))
+            if k in ("bool", "result-bool", "int"):
+                verdict[n] = k
+                changed = True
+    return verdict
+
+
+def _closures_made(fn):
+    return [rv["closure"] for b, j, pl, rv, m in fn.assigns() if rv["k"] == "agg" and rv.get("adt") == "{closure}"]
+
+
+def _taint(F, fn, sb):
+    """does an unmodelled call see the result of the call in block sb?"""
+    o = Origins(fn)
+    st = fn.term(sb)
+    sc = callee(st)
+
+    def tainted(f2, b, t):
+        if f2.name != fn.name:
+            return False
+        for a in t["args"]:
+            for l in o.at(a, b):
+                if l[0] in ("call", "effect") and l[1] == sc and l[2] == sb:
+                    return True
+        return False
+    return tainted
+
+
+def _judge(F, fn, sim, res, kind):
+    """(ok, why) for the fired outcomes of one simulation"""
+    bad = []
+    for fired, v, outs in res:
+        if fired and not _is_negative(v, kind):
+            bad.append("returns %s" % _show(v))
+    for fired, code, fname, b in sim.exit_codes:
+        if fired and not (code[0] == "i" and code[1] != 0):
+            bad.append("exits with status %s" % _show(code))
+    return bad
+
+
+def _show(v):
+    if v == AI.U:
+        return "an undetermined value"
+    if v[0] == "b":
+        return "true" if v[1] else "false"
+    if v[0] == "i":
+        return str(v[1])
+    if v[0] == "e":
+        inner = AI.field_of(v, "0")
+        return "%s(%s)" % (v[2], _show(inner) if inner != AI.U else "..") if v[2] else "a value of %s" % v[1]
+    return str(v[0])
+
+
+def _link(F, r, fn, site, forced, kind_out, key, what, c, opaque):
+    """one obligation: when `site` yields `forced` (once, any visit), every outcome of fn is negative"""
+    sb = site[1]
+    sim = AI.Sim(F, site=site, forced=forced, tainted_by=_taint(F, fn, sb) if sb is not None and site[0] == fn.name else None, opaque=opaque)
+    try:
+        res = sim.run(fn, [AI.U] * fn.nargs)
+    except AI.Lossy as e:
+        need(False, "%s: %s" % (key, e))
+    bad = _judge(F, fn, sim, res, kind_out)
+    reached = any(f for f, v, o in res) or any(f for f, c2, n2, b2 in sim.exit_codes)
+    if bad and sim.lossy:
+        need(False, "%s: the verdict passes through %s, which is not modelled" % (key, sorted({x[2] for x in sim.lossy})[0]))
+    if not reached and not bad:
+        # the negative value never leaves the function through a return or an exit: it diverges (panic) or the site is dead
+        r.inst(key, fn.where(sb) if sb is not None else fn.where(), True, "no outcome after %s (the path ends in a panic or loop)" % what, nontrivial=False)
+        return
+    r.inst(key, fn.where(sb) if sb is not None else fn.where(), not bad,
+           "%s forces the caller's verdict on every path" % what if not bad else
+           "verdict dropped: after %s from %s, %s %s" % (what, c.split("::")[-1], fn.name, sorted(set(bad))[0]),
+           {"outcomes": sorted({_show(v) for f, v, o in res if f})[:6], "exit_codes": sorted({_show(c2) for f, c2, n2, b2 in sim.exit_codes if f})})
+
+
 def r57(F):
     r = RuleResult("R57", "no verdict is dropped on the way to the exit status",
-                   "every false / Ok(false) result of do_validate, do_compile, visit_ucg_files is read and "
-                   "forces the caller's own verdict (result=false / ok=false / exit(1)) on every path", floor=9)
-    for fn in [f for n, f in F.fns.items() if f.crate == "ucg" and not f.derived]:
-        sites = [(b, t) for b, t in fn.calls() if callee(t) in VERDICT_FNS]
-        if not sites:
-            continue
-        vblocks, cand = _verdict_blocks(fn)
+                   "every false / Ok(false) / Err result of do_validate, do_compile, visit_ucg_files (and of every helper or closure "
+                   "that returns their verdict) makes the caller's own outcome negative on every path that sees it, whatever the "
+                   "other results are: decided by evaluating the caller with that one result forced (three-valued abstract "
+                   "interpretation of the MIR, no idiom matching)", floor=9)
+    verdict = verdict_functions(F)
+    opaque = set(verdict)
+    roots = {n: k for n, k in verdict.items() if n not in SEEDS}
+    need(all(x in roots for x in ROOT_VERDICTS), "do_validate / do_compile / visit_ucg_files are not recognised as verdict functions")
+    for fn in [f for n, f in F.fns.items() if (f.crate == "ucg" or n.startswith("ucg::")) and not f.derived]:
+        kind_out = _kind(fn.local_ty(0))
+        sites = [(b, t) for b, t in fn.calls() if callee(t) in roots]
         for b, t in sites:
             c = callee(t)
             key = "%s->%s" % (fn.name, c)
-            d = t["dest"]
-            need(not d["p"], "call result stored in a projected place in %s" % fn.name)
-            dl = d["l"]
-            ty = fn.local_ty(dl)
-            if ty == "bool":
-                sw = util.bool_switches(fn, dl)
-                if not sw:
-                    r.inst(key, fn.where(b), False, "verdict dropped: bool result of %s is never tested" % c)
-                    continue
-                ok = all(util.must_pass(fn, ft, vblocks) for _, ft, _ in sw)
-                r.inst(key, fn.where(b), ok,
-                       "false edge forces the caller's verdict" if ok else
-                       "verdict dropped: a path from the false edge reaches the exit without setting the caller's verdict",
-                       {"switch_blocks": [s[0] for s in sw], "verdict_locals": cand})
-            else:
-                # Result<bool, _>: the Ok payload must be tested
-                payload = []
-                for bb, j, pl, rv, meta in fn.assigns():
-                    if rv["k"] == "use":
-                        src = op_place(rv["ops"][0])
-                        if src is not None and src["l"] in util.copies_of(fn, dl, allow_not=False) \
-                                and place_fields(src) == ["0"] and any(isinstance(e, dict) and e.get("v") == "Ok" for e in src["p"]):
-                            payload.append(pl["l"])
-                sw = []
-                for pl_ in payload:
-                    sw += util.bool_switches(fn, pl_)
-                # switch directly on the projected payload
-                for bb, blk in enumerate(fn.blocks):
-                    tt = blk["term"]
-                    if tt["k"] == "switch" and not blk["cleanup"]:
-                        p = op_place(tt["on"])
-                        if p is not None and p["l"] in util.copies_of(fn, dl, allow_not=False) and place_fields(p) == ["0"]:
-                            zero = [x["t"] for x in tt["targets"] if x["val"] == "0"]
-                            if zero:
-                                sw.append((bb, zero[0], tt["otherwise"]))
-                if not sw:
-                    # `visit(..).unwrap_or(false)` returned from a closure: Ok(v) -> v, Err -> false; the closure's result is the verdict
-                    uo = [(b2, t2) for b2, t2 in fn.calls() if callee(t2).split("::")[-1] in ("unwrap_or", "unwrap_or_default") and "Result" in callee(t2)
-                          and t2["args"] and op_local(t2["args"][0]) in util.copies_of(fn, dl, allow_not=False)]
-                    ret_bool = fn.local_ty(0) == "bool"
-                    if uo and ret_bool and all(t2["dest"]["l"] in util.copies_of(fn, 0, allow_not=False) or 0 in util.copies_of(fn, t2["dest"]["l"], allow_not=False)
-                                               for b2, t2 in uo):
-                        dflt = uo[0][1]["args"][1].get("int") if len(uo[0][1]["args"]) > 1 else "0"
-                        r.inst(key, fn.where(b), True, "Ok(v) -> v is the closure's verdict")
-                        r.inst(key + ":Err", fn.where(b), dflt == "0",
-                               "an Err counts as false" if dflt == "0" else
-                               "verdict dropped: an Err from %s is turned into `true`" % c.split("::")[-1])
-                        _consumption(F, r, fn, key)
-                        continue
-                    r.inst(key, fn.where(b), False,
-                           "verdict dropped: Ok(false) from %s is never inspected (only the Err case, if any)" % c)
-                    continue
-                ok = all(util.must_pass(fn, ft, vblocks) for _, ft, _ in sw)
-                r.inst(key, fn.where(b), ok,
-                       "Ok(false) forces the caller's verdict" if ok else
-                       "verdict dropped: Ok(false) edge reaches the exit without setting the caller's verdict",
-                       {"switch_blocks": [s[0] for s in sw], "verdict_locals": cand})
-                # the Err case (a path that could not be visited at all) is a failure too, unless it is propagated with `?`
-                ees = util.err_edges(fn, dl)
-                if ees:
-                    prop = all(any(fn.term(x)["k"] == "call" and "from_residual" in callee(fn.term(x)) for x in cfg.reachable(fn, e)) and
-                               not (cfg.reachable(fn, e) & set(vblocks)) for e in ees) and fn.local_ty(0).startswith("core::result::Result")
-                    oke = prop or all(util.must_pass(fn, e, vblocks) for e in ees)
-                    r.inst(key + ":Err", fn.where(b), oke,
-                           "an Err from %s is propagated or forces the caller's verdict" % c.split("::")[-1] if oke else
-                           "verdict dropped: an Err from %s (a directory that could not be read) is ignored and the run can still exit 0"
-                           % c.split("::")[-1])
-                else:
-                    r.inst(key + ":Err", fn.where(b), False,
-                           "verdict dropped: the Err case of %s is never looked at (`if let Ok(false) = ..`): a path that could not be "
-                           "visited is skipped silently and the run can still exit 0" % c.split("::")[-1])
-                if "{closure" in fn.name:
-                    _consumption(F, r, fn, key)
+            need(kind_out is not None, "%s returns %s: not a verdict type this rule understands" % (fn.name, fn.local_ty(0)))
+            for suffix, forced in _negatives(roots[c]):
+                what = {"": "a negative result", ":Err": "an Err"}[suffix]
+                if "{closure" in fn.name and kind_out == "unit":
+                    need(False, "%s: the closure returns () - its verdict leaves through captured state, which is not modelled" % key)
+                _link(F, r, fn, (fn.name, b), forced, kind_out, key + suffix, what, c, opaque)
+            if "{closure" in fn.name:
+                _consumption(F, r, fn, key)
+        # closures that carry a verdict are consumed by this function
+        for cn in _closures_made(fn):
+            if cn in roots:
+                key = "%s->%s" % (fn.name, cn.split("::")[-1] if cn.startswith(fn.name) else cn)
+                need(kind_out is not None, "%s returns %s: not a verdict type this rule understands" % (fn.name, fn.local_ty(0)))
+                for suffix, forced in _negatives(roots[cn])[:1]:
+                    _link(F, r, fn, (cn, None), forced, kind_out, key + ":consumed", "a negative result of the closure", cn, opaque)
     return r
 
 
